@@ -62,6 +62,8 @@ type Recorder struct {
 	FailWriteAt    int
 	writes         int
 	handles        int
+	// FailRename makes the next Rename fail with EXDEV-like error without moving anything.
+	FailRename bool
 }
 
 // Rec, when non-nil, records operations.
@@ -177,6 +179,10 @@ func WriteFile(name string, data []byte, perm FileMode) error {
 func ReadFile(name string) ([]byte, error) { return os.ReadFile(name) }
 
 func Rename(oldpath, newpath string) error {
+	if Rec != nil && Rec.FailRename {
+		Rec.FailRename = false
+		return &os.LinkError{Op: "rename", Old: oldpath, New: newpath, Err: syscall.EACCES}
+	}
 	err := os.Rename(oldpath, newpath)
 	if err == nil {
 		Rec.log(Op{Kind: "rename", Name: oldpath, To: newpath})
